@@ -153,13 +153,6 @@ func cmdCheck(args []string) int {
 		fmt.Println("contract files cannot be read:", err)
 		return finish()
 	}
-	var units []*FuncContract
-	for _, fc := range cs.Funcs {
-		if !fc.Trusted && hasProp(fc.Props, *prop) {
-			units = append(units, fc)
-		}
-	}
-	sort.Slice(units, func(i, j int) bool { return units[i].PkgPath+units[i].Name < units[j].PkgPath+units[j].Name })
 	var lemmas []*Lemma
 	for _, lm := range cs.Lemmas {
 		if hasProp(lm.Props, *prop) {
@@ -180,6 +173,14 @@ func cmdCheck(args []string) int {
 		return finish()
 	}
 	p.Contracts = cs
+	p.expandSweeps()
+	var units []*FuncContract
+	for _, fc := range cs.Funcs {
+		if !fc.Trusted && hasProp(fc.Props, *prop) {
+			units = append(units, fc)
+		}
+	}
+	sort.Slice(units, func(i, j int) bool { return units[i].PkgPath+units[i].Name < units[j].PkgPath+units[j].Name })
 	loadSecs := time.Since(t0).Seconds()
 
 	// generate
